@@ -191,7 +191,7 @@ fn alphabet() -> Vec<Ev> {
 
 fn random_event(rng: &mut Rng) -> Ev {
     match rng.below(100) {
-        0..=24 => Ev::Register(rng.below(N_KEYS as u64) as usize, rng.below(N_IDS as u64) as usize, *rng.pick(&[0u64, 3, 5, 10, 30])),
+        0..=24 => Ev::Register(rng.below(N_KEYS as u64) as usize, rng.below(N_IDS as u64) as usize, *rng.pick(&[0u64, 3, 5, 10, 30, 60, 60])),
         25..=39 => Ev::Advance(*rng.pick(&[1u64, 2, 5, 10])),
         40..=46 => Ev::Purge,
         47..=61 => Ev::Connect(rng.below(N_ADDRS as u64) as usize, rng.below(N_IDS as u64) as usize),
@@ -229,7 +229,7 @@ fn main() {
     let n: usize = arg("--n").and_then(|x| x.parse().ok()).unwrap_or(400);
     let thorough = std::env::var("VERIF_TIER").map(|t| t == "thorough").unwrap_or(false);
     let mut rng = Rng::new(seed_from_env());
-    let mut sh = Shards::new(&out, "From Sci Require Import Snap.Cases_C09.\nOpen Scope N_scope.", "rcase", "verdicts", 60);
+    let mut sh = Shards::new(&out, "From Sci Require Import Snap.Cases_C09.\nOpen Scope N_scope.", "rcase", "verdicts", 100);
     let mut sum = Summary::default();
     let mut seen: HashSet<Vec<Ev>> = HashSet::new();
     let alpha = alphabet();
@@ -241,19 +241,48 @@ fn main() {
     for i in 0..k { short.push(vec![alpha[i].clone()]); }
     for i in 0..k { for j in 0..k { short.push(vec![alpha[i].clone(), alpha[j].clone()]); } }
     if thorough {
-        for i in 0..k { for j in 0..k { for l in 0..k { if matches!(alpha[i], Ev::Register(..)) { short.push(vec![alpha[i].clone(), alpha[j].clone(), alpha[l].clone()]); } } } }
+        // all length-3 histories that start by registering an identity under key 0 for 5 s
+        for i in 0..k { for j in 0..k { for l in 0..k { if matches!(alpha[i], Ev::Register(0, _, 5)) { short.push(vec![alpha[i].clone(), alpha[j].clone(), alpha[l].clone()]); } } } }
     } else {
         rng.shuffle(&mut short); short.truncate(n / 4);
     }
     for h in short { histories.push(("exhaustive-short".into(), h)); }
-    let n_short3 = if thorough { n / 3 } else { n / 4 };
+    let n_short3 = if thorough { n / 6 } else { n / 4 };
     for _ in 0..n_short3 {
         let len = rng.range(3, 6) as usize;
         histories.push(("sampled-short".into(), (0..len).map(|_| rng.pick(&alpha).clone()).collect()));
     }
     while histories.len() < n {
         let len = rng.range(6, 40) as usize;
-        histories.push(("random".into(), (0..len).map(|_| random_event(&mut rng)).collect()));
+        // half of the random histories are "guided": events that cannot do anything in the
+        // current situation (data without a client tunnel, ...) are mostly re-drawn, so that long
+        // stretches of live traffic with lapses and re-registrations in between are reached
+        let guided = rng.chance(1, 2);
+        let mut h: Vec<Ev> = vec![];
+        // a shadow run tells the generator which client tunnels completed their handshake
+        let mut shadow = World::new();
+        let mut has_session = [false; N_ADDRS];
+        let mut registered = [false; N_IDS];
+        while h.len() < len {
+            let e = random_event(&mut rng);
+            if guided {
+                let useless = match e {
+                    Ev::DataIn(a) | Ev::DataOut(a) => !has_session[a],
+                    Ev::Connect(_, c) => !registered[c],
+                    _ => false,
+                };
+                if useless && !rng.chance(1, 8) { continue; }
+                let ok = std::panic::catch_unwind(std::panic::AssertUnwindSafe(|| shadow.apply(&e))).is_ok();
+                if !ok { shadow = World::new(); }
+                match e {
+                    Ev::Connect(a, _) => has_session[a] = shadow.human.last().map(|l| l.starts_with("keepalive")).unwrap_or(false),
+                    Ev::Register(_, c, _) => registered[c] = true,
+                    _ => {}
+                }
+            }
+            h.push(e);
+        }
+        histories.push((if guided { "random-guided".into() } else { "random".into() }, h));
     }
 
     let ids = coq_list((0..N_IDS).map(|i| i.to_string()));
